@@ -429,7 +429,7 @@ class Gen(object):
             if len(st['rp']) < 3 and r.random() < 0.6:
                 return self.rp_create(st)
             bare = sorted(p for p in st['rp'] if not st['inv'].get(p))
-            if bare and r.random() < 0.35:
+            if bare and not self.weights.get('_noinv') and r.random() < 0.35:
                 u = r.choice(bare)
                 ks = r.sample(self.classes[:3], r.randint(1, 3))
                 inv = []
